@@ -1020,6 +1020,12 @@ func (c *Ctx) racePairs(pairs map[string][][2]string) {
 				continue
 			}
 			es := engines[p[0]]
+			if p[1] == "DeleteTable" && p[2] == "ModifyFamilies" {
+				for _, e := range es { // (on every engine: see the longer duration below)
+					jobs = append(jobs, job{p, e})
+				}
+				continue
+			}
 			jobs = append(jobs, job{p, es[(i+int(c.Seed))%len(es)]})
 		}
 	} else {
@@ -1059,7 +1065,11 @@ func (c *Ctx) racePairs(pairs map[string][][2]string) {
 			defer wg.Done()
 			sem <- struct{}{}
 			defer func() { <-sem }()
-			out, code := runRacePair(jb.pair, jb.engine, secs)
+			d := secs
+			if jb.pair[1] == "DeleteTable" && jb.pair[2] == "ModifyFamilies" && c.Quick() {
+				d = "4" // a lock-order inversion between the two needs a few hundred overlapping calls to show
+			}
+			out, code := runRacePair(jb.pair, jb.engine, d)
 			mu.Lock()
 			results = append(results, res{jb.pair, jb.engine, out, code})
 			mu.Unlock()
